@@ -301,26 +301,20 @@ func runC18(c *eng.Ctx) {
 	c.Rule("PASS", smgrT+".onShardAssignmentChange{every accepted assignment initialises its shard states}", func() {
 		f := c.Fn(smgrT + ".onShardAssignmentChange")
 		ini := c.Some(f, eng.AnyCallTo(smgrT+".initializeShardState"), "m.initializeShardState(storage, assignment)")
-		n := 0
-		for _, b := range f.Blocks {
-			for _, in := range b.Instrs {
-				r, ok := in.(*ssa.Return)
-				if !ok {
-					continue
-				}
-				decodeErr := eng.DependsOn(r.Results[0], func(x ssa.Value) bool {
-					cl, ok := x.(*ssa.Call)
-					return ok && cl.Common().StaticCallee() != nil && strings.HasSuffix(cl.Common().StaticCallee().Name(), "Unmarshal")
-				})
-				if decodeErr && !eng.DominatedBy(f, r, ini, nil) {
-					continue // the undecodable event is rejected
-				}
-				n++
-				c.Check(eng.DominatedBy(f, r, ini, nil), fmt.Sprintf("initialised-before-return[%d]", n), r, f,
-					"whatever the live-node set is at that moment, an accepted assignment gets a state entry for each of its shards (offline / no leader when nobody is alive): node start-up only revives shards that HAVE an entry",
-					"a return is reached without initializeShardState")
-			}
-		}
+		dec := c.One(f, func(_ *eng.Prog, in ssa.Instruction) bool {
+			cl, ok := in.(*ssa.Call)
+			return ok && cl.Common().StaticCallee() != nil && strings.HasSuffix(cl.Common().StaticCallee().Name(), "Unmarshal")
+		}, "JSONUnmarshal(data, assignment)")
+		// on every path on which the event decoded, the handler initialises the shard states before it returns
+		_, errEdges := eng.ErrCheckEdges(f, dec.Instr.(ssa.Value))
+		w, skipped := eng.PathExists(eng.PathQuery{Fn: f, After: dec.Instr,
+			Target:  func(in ssa.Instruction) bool { _, ok := in.(*ssa.Return); return ok },
+			Blocked: func(in ssa.Instruction) bool { return instrIn(in, ini) },
+			Edge:    eng.ForbidEdges(errEdges)})
+		n := 1
+		c.Check(len(errEdges) > 0 && !skipped, "initialised-before-return[1]", w, f,
+			"whatever the live-node set is at that moment, an accepted assignment gets a state entry for each of its shards (offline / no leader when nobody is alive): node start-up only revives shards that HAVE an entry",
+			"a return is reached after a successful decode without initializeShardState")
 		c.Check(n >= 1, "accepting-returns-found", nil, f, "the handler has an accepting exit", "")
 	})
 
